@@ -13,6 +13,7 @@ import Desverif.Proofs.NdlInst
 import Desverif.Proofs.NdlWire
 import Desverif.Proofs.NdlDenote
 import Desverif.Proofs.NdlErrors
+import Desverif.Proofs.NdlConverse
 namespace C18
 open Ndl
 
@@ -106,10 +107,41 @@ theorem instantiate_connections_exact (reg : Str → Bool) (n : Node) (w : World
     whole-cluster / cluster-to-cluster connections, links) succeeds with tree `n`, then the top-down
     denotation `Spec.denoteTree` — no work list, no table, endpoint expansion as a list comprehension,
     type arguments substituted positionally by the generic module's own declarations — is exactly `n`.
-    (The converse, "denotation defined ⇒ transform succeeds", is not proved; see the report.) -/
+    (Converse: `transform_iff_denotation`.) -/
 theorem transform_eq_denotation (d : Def) (hs : Spec.unsupported d = false)
     (n : Node) (h : transform d = .ok n) : Spec.denoteTree d = .ok n :=
   transform_denoteTree d hs n h
+
+/-- **Elaboration = denotation, both directions.**  In the supported fragment `transform` succeeds with
+    tree `n` exactly when the description denotes `n`: the memoised bottom-up elaboration accepts every
+    description that has a denotation (the ordering loop cannot get stuck on modules that denote, and
+    every check of `transform_module` passes when ⟦module⟧ is defined) and computes it. -/
+theorem transform_iff_denotation (d : Def) (hs : Spec.unsupported d = false) (n : Node) :
+    transform d = .ok n ↔ Spec.denoteTree d = .ok n :=
+  ⟨transform_denoteTree d hs n, denoteTree_transform d hs n⟩
+
+/-- **Rejections are exactly the descriptions without denotation.**  In the supported fragment
+    `transform d` is an error iff `Spec.denoteTree d` is undefined (an error).  (The two error *values*
+    need not have the same kind when a description has several defects: the denotation evaluates
+    modules top-down in declaration order, `transform` in dependency/hash order; which defect
+    `transform` reports, and that it really is one, is `error_kinds_descriptive`.) -/
+theorem transform_rejects_iff_undefined (d : Def) (hs : Spec.unsupported d = false) :
+    (∃ f, transform d = .error f) ↔ (∃ e, Spec.denoteTree d = .error e) := by
+  constructor
+  · rintro ⟨f, hf⟩
+    cases hd : Spec.denoteTree d with
+    | error e => exact ⟨e, rfl⟩
+    | ok n =>
+      have := denoteTree_transform d hs n hd
+      rw [hf] at this
+      cases this
+  · rintro ⟨e, he⟩
+    cases ht : transform d with
+    | error f => exact ⟨f, rfl⟩
+    | ok n =>
+      have := transform_denoteTree d hs n ht
+      rw [he] at this
+      cases this
 
 /-- **transform_sound_complete.**  For every supported description: if `transform` succeeds and
     building the simulation succeeds, the simulation is exactly ⟦d⟧ — the module paths with their
@@ -242,9 +274,9 @@ def cycDef : Def :=
         (⟨"B".toList, []⟩, ⟨none, [], [(⟨"a".toList, .atom⟩, ⟨"A".toList, []⟩)], []⟩) ]
     links := [] }
 
-example : cycDef.endpointsNonempty ∧
+example : cycDef.endpointsNonempty ∧ Spec.unsupported cycDef = false ∧
     transform cycDef = .error (.err .unresolvableDependency ["A".toList, "B".toList] {}) := by
-  refine ⟨?_, by rfl⟩
+  refine ⟨?_, by decide, by rfl⟩
   unfold Def.endpointsNonempty
   decide
 
